@@ -49,6 +49,11 @@ func c12Docs(tier string) *TextSet {
 				}
 			}
 		}
+		for _, v := range Large().Vals {
+			if _, ok := v.(map[string]interface{}); ok {
+				docs = append(docs, v)
+			}
+		}
 		return NewTextSet(docs)
 	})
 }
